@@ -30,6 +30,11 @@ pub enum Src {
     /// a conditional branch whose distance fits 16 bits in the input only because its `ldc`s are narrow there; the
     /// writer's own pool order makes them wide, so the branch no longer fits and needs a trampoline
     GrowLdc { m: u16, slack: i32, backward: bool, op: u8 },
+    /// a method whose code is `65535 - slack` bytes in the input and GROWS when duke writes it (m strings that are
+    /// narrow `ldc`s in the input's pool order and `ldc_w`s in the writer's first-use order): the written method ends
+    /// just below, at or just above the 65535-byte limit - the writer has to refuse cleanly what no longer fits
+    /// (missed seeded change C02-15: only where an instruction STARTS was still checked)
+    GrowOverLimit { m: u16, slack: u16 },
 }
 
 #[derive(Clone, Debug, Serialize, Deserialize)]
@@ -303,6 +308,44 @@ fn grow_ldc(m: u16, slack: i32, backward: bool, op: u8) -> Option<Vec<u8>> {
     }
 }
 
+fn grow_over_limit(m: u16, slack: u16) -> Option<Vec<u8>> {
+    let build = |filler: usize| -> Option<refclass::Encoded> {
+        let pop = Insn::Simple(refclass::op::POP);
+        let mut v: Vec<Insn> = vec![];
+        for i in 0..140 {
+            v.push(Insn::Ldc(Const::String(JStr::from_str(&format!("k{i}")))));
+            v.push(pop.clone());
+        }
+        for i in 0..m {
+            v.push(Insn::Ldc(Const::String(JStr::from_str(&format!("c{i}")))));
+            v.push(pop.clone());
+        }
+        for _ in 0..filler {
+            v.push(Insn::Simple(0));
+        }
+        v.push(Insn::Simple(refclass::op::RETURN));
+        let code = Code { max_stack: 4, max_locals: 1, insns: v, ..Code::default() };
+        let sem = Sem {
+            major: 50,
+            minor: 0,
+            access: 0x0021,
+            this_class: JStr::from_str("GrowOverLimit"),
+            super_class: Some(JStr::from_str("java/lang/Object")),
+            methods: vec![Method { access: 0x0009, name: JStr::from_str("m"), desc: JStr::from_str("()V"), code: Some(code), ..Method::default() }],
+            ..Sem::default()
+        };
+        let layout = refclass::Layout { cp_order: refclass::enc::CpOrder::Reversed, ..refclass::Layout::default() };
+        refclass::encode(&sem, &layout).ok()
+    };
+    // the code length without filler, read off the offset map; every filler nop adds one byte
+    let e0 = build(0)?;
+    let span = e0.map.iter().find(|s| s.path.ends_with("code_length"))?;
+    let l0 = u32::from_be_bytes(e0.bytes[span.start..span.start + 4].try_into().ok()?) as usize;
+    let want = 65_535usize.checked_sub(slack as usize)?;
+    let filler = want.checked_sub(l0)?;
+    build(filler).map(|e| e.bytes)
+}
+
 fn input_bytes(src: &Src) -> Option<Vec<u8>> {
     match src {
         Src::Corpus { idx } => {
@@ -328,6 +371,7 @@ fn input_bytes(src: &Src) -> Option<Vec<u8>> {
             refclass::encode(&bj.sem, &refclass::Layout::default()).ok().map(|e| e.bytes)
         }
         Src::GrowLdc { m, slack, backward, op } => grow_ldc(*m, *slack, *backward, *op),
+        Src::GrowOverLimit { m, slack } => grow_over_limit(*m, *slack),
     }
 }
 
@@ -359,6 +403,7 @@ impl Engine for C02 {
                 // slack in -2..=m+2: on both sides of "the grown distance just fits / just does not fit"
                 Src::GrowLdc { m, slack: w.range(0, m as u64 + 4) as i32 - 2, backward: w.chance(40), op: *w.pick(&[153u8, 154, 155, 158, 159, 160, 162, 165, 166, 198, 199]) }
             }
+            30 => Src::GrowOverLimit { m: w.range(100, 200) as u16, slack: w.below(14) as u16 },
             _ => {
                 let size = match w.below(20) {
                     0 if tier == Tier::Thorough => 2,
@@ -437,6 +482,7 @@ impl Engine for C02 {
                 _ => "big.near_limit",
             }),
             Src::GrowLdc { .. } => st.probe("grow_ldc"),
+            Src::GrowOverLimit { .. } => st.probe("grow_over_limit"),
             Src::Corpus { .. } => st.probe("corpus"),
             Src::Gen { .. } => st.probe("generated"),
         }
